@@ -1,7 +1,7 @@
 #!/bin/bash
 # runs every registered quick (or $1) check once and prints a summary line per property
 tier=${1:-quick}
-cd /verif
+cd "$(dirname "$(readlink -f "$0")")/.."
 for i in $(seq -w 1 20); do
   s=$(date +%s)
   out=$(./check C$i --tier $tier 2>&1); rc=$?
